@@ -46,7 +46,7 @@ REQUIRED_COUNTERS = [
     "pfr_rotkh", "rotmeta", "dc_hash", "ahab_srktable", "hab_srktable", "cli", "form_invariance", "order_sensitivity",
     "used_index_invariance", "cb_v1_roundtrip", "cb_v21_roundtrip", "isk_signature", "fresh_process", "leading_zero_keys",
 ]
-CASE_TIMEOUT_S = 300
+CASE_TIMEOUT_S = 900
 WATCHDOG_S = {"quick": 1500, "thorough": 7200}
 
 RSA_KINDS = ("rsa2048", "rsa3072", "rsa4096")
@@ -337,6 +337,8 @@ def crash_key(path: Path, forms: list, exc: BaseException) -> str:
     if isinstance(exc, AttributeError) and "obj:ca" in forms and "'ca'" in str(exc):
         return "rkht-convert-key-ca-certificate-object-attributeerror"
     if isinstance(exc, TypeError) and any(f.endswith(":bytearray") for f in forms) and "bytearray" in str(exc):
+        if path.name.startswith(("rot:srk_table_hab", "cli-rot:srk_table_hab")):
+            return "rot-hab-load-certificate-bytearray-typeerror"  # RotSrkTableHab._load_certificate, its own code path
         return "rkht-convert-key-bytearray-typeerror"
     if path.name == "rotmeta-ecc" and isinstance(exc, (KeyError, struct.error)) and "64" in str(exc):
         return "rotmeta-ecc-p521-item-size"  # C15 defect surfacing here: SHA-512 items are 64 B, the code assumes 66
@@ -501,6 +503,11 @@ def build_paths(ctx, kms: list, rng: random.Random, families_per_type: int, with
                 ctx.violation(f"rotmeta-{cls.__name__}/parse-export-changes-blob", {"n": len(vals)})
             elif back.calculate_hash() != h:
                 ctx.violation(f"rotmeta-{cls.__name__}/hash-changes-after-parse", {"n": len(vals)})
+            if len(vals) > 1 and cls is not RotMetaRSA:  # the used root (rot_id) is recorded in the flags word only
+                m2 = cls.load_from_config(dict(cfg, rot_id=len(vals) - 1))
+                ctx.count("used_index_invariance")
+                if m2.calculate_hash() != h or m2.export()[4:] != data[4:]:
+                    ctx.violation(f"rotmeta-{cls.__name__}/depends-on-used-root-index", {"n": len(vals), "rot_id": len(vals) - 1})
             return h, data[strip:]
         return fn
 
@@ -1160,7 +1167,11 @@ def run_keyset(case, ctx) -> None:
     rng = ctx.rng
     kms = [KM.pool(x, ctx.workdir) for x in case["keys"]]
     paths = build_paths(ctx, kms, rng, case.get("fams", 1), with_cli=case.get("cli", True))
-    eval_paths(ctx, "keyset", kms, paths, rng, case.get("forms", 3))
+    only = case.get("only_forms")
+    if only:  # directed witness: exactly these input forms, at every position
+        for p in paths:
+            p.forms = [f for f in p.forms if f in only]
+    eval_paths(ctx, "witness" if only else "keyset", kms, paths, rng, case.get("forms", 3))
     eval_dc(ctx, "keyset", kms, rng)
 
 
@@ -1207,7 +1218,7 @@ def selftest(ctx):
 def cases(tier, seed):
     rng = random.Random(f"{seed}/C03/cases")
     thorough = tier == "thorough"
-    forms = 99 if thorough else 3
+    forms = 9 if thorough else 3
     fams = 2 if thorough else 1
     # 1. key sets: every kind, 1..4 keys; all orders for <= 3 keys of a fixed subset, sampled 4-key sets
     for kind in RSA_KINDS + ECC_KINDS:
@@ -1222,6 +1233,10 @@ def cases(tier, seed):
             extra = (6 if n == 4 else 3) if thorough else (1 if n == 4 else 0)
             for _ in range(extra):
                 yield {"kind": "keyset", "keys": rng.sample(pool, n), "forms": forms, "fams": fams, "cli": thorough}
+    # directed witnesses (deterministic in every run): bytearray input and a CA `Certificate` object at every position
+    for keys in (["rsa2048_0", "rsa2048_1"], ["p256_0", "p256_1", "p256_2", "p256_3"], ["p521_0", "p521_1"]):
+        yield {"kind": "keyset", "keys": keys, "forms": 99, "fams": 1, "cli": False,
+               "only_forms": ["pub.der:bytearray", "ca.der:bytearray", "obj:ca", "obj:nonca", "obj:pub", "obj:priv"]}
     # mixed sets (RSA sizes mixed, curves mixed, RSA + ECC, a repeated key)
     mixes = [["rsa2048_0", "rsa4096_1"], ["rsa3072_0", "rsa2048_2", "rsa4096_0", "rsa2048_1"], ["p256_0", "p384_0"], ["rsa2048_0", "p256_1"],
              ["p256_2", "p256_2"], ["rsa2048_3", "rsa2048_3", "rsa2048_4", "rsa2048_3"], ["p521_0", "p256_0", "p384_1", "p256_1"]]
@@ -1235,7 +1250,7 @@ def cases(tier, seed):
     if thorough:
         lz_specs = lz_specs * 4
     for i, (curve, n, lz) in enumerate(lz_specs):
-        yield {"kind": "lz", "curve": curve, "n": n, "lz": lz, "forms": 99 if thorough else 4, "fams": fams, "cli": i % 2 == 0, "k": i}
+        yield {"kind": "lz", "curve": curve, "n": n, "lz": lz, "forms": 9 if thorough else 4, "fams": fams, "cli": i % 2 == 0, "k": i}
     # 3. certificate block v1: depth x root x used index x count x alignment x construction
     v1 = []
     for kind in RSA_KINDS:
